@@ -403,6 +403,10 @@ func ruleCursor(w *World, r *Report, pkg *ssa.Package, tag string) {
 				}
 			case cellB:
 				s.eb = 0
+				if c, ok := isBuiltinCall(stripInt(x.Val), "len"); ok && listParamOf(c.Call.Args[0]) == ssa.Value(fn.Params[kB]) {
+					// `bCursor = len(b)`: the rest of the second list taken in one step (benign B-r2)
+					s.eb = 1
+				}
 				if isInc {
 					if s.d != top {
 						s.d = clamp(s.d - delta)
@@ -415,6 +419,9 @@ func ruleCursor(w *World, r *Report, pkg *ssa.Package, tag string) {
 				}
 			case cellA:
 				s.ea = 0
+				if c, ok := isBuiltinCall(stripInt(x.Val), "len"); ok && listParamOf(c.Call.Args[0]) == ssa.Value(fn.Params[0]) {
+					s.ea = 1
+				}
 			}
 			return s
 		case ssa.CallInstruction:
